@@ -346,6 +346,13 @@ Print Assumptions C02_checker_sound.
 Theorem C02_agrees_implies_ok : forall c, forced_guard c = true -> agrees c = true -> C02_ok c = true.
 Proof. exact agrees_implies_C02_ok. Qed.
 
+(* the one conjunct of forced_guard that runs the model follows from the PROGRAM TEXT (forced_guard_static: the
+   code of every WithExpectedCheck callback is not 10 for Set / Update / Add, not 14 for Delete, and no call
+   generates its id; validation answers 3 or 13 only): a guard that mentions neither the model nor the verdict *)
+Theorem C02_agrees_implies_ok_static : forall c, forced_guard_static c = true -> agrees c = true -> C02_ok c = true.
+Proof. exact agrees_implies_C02_ok_static. Qed.
+Print Assumptions C02_agrees_implies_ok_static.
+
 (* so verdict 2 ("model agrees, predicate fails") cannot occur on such a case *)
 Theorem C02_forced_verdict_never_2 : forall c, forced_guard c = true -> judge02 c <> 2.
 Proof. exact judge02_never_2. Qed.
@@ -612,5 +619,5 @@ Proof. vm_compute. repeat split; reflexivity. Qed.
 Example C02_nonvacuous_agrees_implies_ok :
   let c := CaseSched None (Some (mkF 5 0 0)) [] two_deltas [0; 1; 0; 1; 0]%nat
                      [mkFO (Some (mkF 8 0 0)) 0; mkFO None 10] (Some (mkF 8 0 0)) [] [] [] [] in
-  forced_guard c = true /\ agrees c = true /\ C02_ok c = true.
+  forced_guard c = true /\ forced_guard_static c = true /\ agrees c = true /\ C02_ok c = true.
 Proof. vm_compute. repeat split; reflexivity. Qed.
